@@ -256,11 +256,46 @@ def job_same_basename(j):
         shutil.rmtree(work, ignore_errors=True)
 
 
+def job_reimport(j):
+    """history: import a sound, save an EARLIER map value over that archive (the member stays, the map no longer lists
+    it), import the same sound again: after an import the sound is listed in the map's sound table, whatever the archive
+    already held"""
+    from richchk.io.mpq.starcraft_mpq_io_helper import StarCraftMpqIoHelper
+    from richchk.mpq.stormlib.stormlib_helper import StormLibHelper
+    work = Path(tempfile.mkdtemp(prefix="verif-c17-", dir=str(vlib.BUILD)))
+    try:
+        base = work / "base.scx"
+        shutil.copyfile(BASES[j["base"]], base)
+        snd = work / ("alarm" + AUDIO[j["file"]].suffix)
+        shutil.copyfile(AUDIO[j["file"]], snd)
+        mpq_io = StarCraftMpqIoHelper.create_mpq_io()
+        wav_io = StarCraftMpqIoHelper.create_wav_io()
+        wrapper = StormLibHelper.load_stormlib()
+        rich0 = mpq_io.read_chk_from_mpq(str(base))
+        m1, m2, m3 = work / "m1.scx", work / "m2.scx", work / "m3.scx"
+        wav_io.add_audio_files_to_mpq([str(snd)], str(base), str(m1))
+        mpq_io.save_chk_to_mpq(rich0, str(m1), str(m2))
+        wav_io.add_audio_files_to_mpq([str(snd)], str(m2), str(m3))
+        problems = []
+        member = "staredit\\wav\\" + snd.name
+        mo = members(wrapper, m3)
+        if mo.get(member) != hashlib.sha1(snd.read_bytes()).hexdigest():
+            problems.append(f"{member!r} is not stored with the file's bytes")
+        v = SC.SpecView(SC.save(mpq_io.read_chk_from_mpq(str(m3))))
+        wav_table = [v.text(int.from_bytes(v.by_name[b"WAV "][-1][4 * k: 4 * k + 4], "little")) for k in range(512)] \
+            if b"WAV " in v.by_name else []
+        if member not in wav_table:
+            problems.append(f"after the second import {member!r} is not listed in the map's sound table")
+        return {"problems": problems, "members": len(mo)}
+    finally:
+        shutil.rmtree(work, ignore_errors=True)
+
+
 if __name__ == "__main__":
     out = []
     for j in json.loads(sys.stdin.read()):
         try:
-            out.append(job_save(j) if j["kind"] == "save" else job_same_basename(j) if j["kind"] == "same-basename" else job_audio(j))
+            out.append(job_save(j) if j["kind"] == "save" else job_same_basename(j) if j["kind"] == "same-basename" else job_reimport(j) if j["kind"] == "reimport" else job_audio(j))
         except Exception as ex:  # noqa
             import traceback
             out.append({"harness_error": traceback.format_exc()[-900:]})
